@@ -78,6 +78,217 @@ def judge(c, res, stream, prop="C01", clause="every figure equals exact decimal 
     return mism
 
 
+# ----------------------------------------------------------------------------------------------
+# the declarative specification (Calc/Ideal.v, extracted) against Go directly, and the last
+# sentence of the property judged on Go's own output
+# ----------------------------------------------------------------------------------------------
+from fractions import Fraction
+TOTALS = ["sum", "discount", "charge", "tax_included", "total", "tax", "total_with_tax", "payable", "advances", "due"]
+BOUND_TOTALS = ["sum", "discount", "charge", "total", "tax", "total_with_tax", "payable", "advances", "due"]
+F_CONV = "C01-converted-price-rounded-to-currency-decimals"
+F_BREAK = "C01-breakdown-price-rounded-to-price-decimals"
+BOUND_CLAUSE = "no presented total of an ordinary-sized document is a full minor currency unit away from the unrounded exact value"
+
+
+def _base_doc():
+    return {"$schema": "https://gobl.org/draft-0/bill/invoice", "uuid": "3aea7b56-59d8-4beb-90bd-f8f280d852a0", "currency": "EUR",
+            "issue_date": "2022-02-01", "code": "S-1",
+            "supplier": {"tax_id": {"country": "ES", "code": "B98602642"}, "name": "P"},
+            "customer": {"tax_id": {"country": "ES", "code": "54387763P"}, "name": "C"}}
+
+
+def witness_docs():
+    """IdealBoundProofs.w_exchange and w_breakdown as invoices (the two known findings)."""
+    a = _base_doc()
+    a["lines"] = [{"quantity": "1000", "item": {"name": "x", "price": "1.00", "currency": "USD"}}]
+    a["exchange_rates"] = [{"from": "USD", "to": "EUR", "amount": "0.915"}]
+    b = _base_doc()
+    b["lines"] = [{"quantity": "1000", "item": {"name": "x", "price": "0.00"},
+                   "breakdown": [{"quantity": "0.5", "item": {"name": "y", "price": "0.01"}}]}]
+    return [a, b]
+
+
+def _clamp_rows(rng, rows, keep):
+    out = []
+    for r in rows[:keep]:
+        r = dict(r)
+        if r.get("percent") in ("33.333%",) and rng.random() < 0.5:
+            r["percent"] = "50%"
+        out.append(r)
+    return out
+
+
+def simple_docs(c, g, n, max_lines=4):
+    """documents inside the domain of precise_error_bound: 'precise', 1-max_lines lines, no breakdown, no
+    exchange-rate conversion, few rows, percentages of at most 100% (every PCT atom is), tax rates 0-100%."""
+    rng = c.rng
+    out = []
+    for _ in range(n):
+        d = g.doc(force_rule=cg.PRECISE, max_lines=max_lines)
+        for l in d["lines"]:
+            l.pop("breakdown", None)
+            it = l["item"]
+            if it.get("currency") and not it.get("alt_prices"):
+                it.pop("currency")
+            for k in ("discounts", "charges"):
+                if k in l:
+                    l[k] = _clamp_rows(rng, l[k], 1)
+        d.pop("exchange_rates", None)
+        for k in ("discounts", "charges"):
+            if k in d:
+                d[k] = _clamp_rows(rng, d[k], 1)
+        if "payment" in d and "advances" in d["payment"] and rng.random() < 0.7:
+            del d["payment"]["advances"]
+            if not d["payment"]:
+                del d["payment"]
+        out.append(d)
+    return out
+
+
+def price_rounding_docs(c, g, n):
+    """small otherwise-simple documents whose first line is priced through an exchange rate or a breakdown and
+    has a large quantity: the rounding of the derived unit price is multiplied up (the two known findings)."""
+    rng = c.rng
+    out = []
+    for d in simple_docs(c, g, n, max_lines=2):
+        l = d["lines"][0]
+        l.pop("discounts", None)
+        l.pop("charges", None)
+        l["quantity"] = str(rng.choice([300, 1000, 2500, 12000, 20000]) + rng.randrange(7))
+        cur = d["currency"]
+        other = "USD" if cur != "USD" else "GBP"
+        if rng.random() < 0.5:
+            l["item"] = {"name": "x", "price": g.amt(900, rng.choice([0, 1, 2, 3]), tie=True), "currency": other}
+            d["exchange_rates"] = [{"from": other, "to": cur, "amount": rng.choice(["0.875967", "0.915", "0.31", "1.1", "1.25", "0.305", "149.31"])}]
+        else:
+            l["item"] = {"name": "x", "price": "0.00"}
+            l["breakdown"] = [{"quantity": rng.choice(["0.5", "1.5", "0.25", "2.5", "0.125", "3"]),
+                               "item": {"name": "s", "price": g.amt(900, rng.choice([0, 1, 2, cg.SUBUNITS[cur]]), tie=True)}}
+                              for _ in range(rng.randint(1, 2))]
+        out.append(d)
+    return out
+
+
+def _oracle_op(op_, docs):
+    wl = []
+    for d in docs:
+        try:
+            wl.append(cg.wire_line(op_, d, "c01"))
+        except (ValueError, KeyError):
+            wl.append("c01 %s ( )" % op_)
+    return [parse_wire(x) for x in run_oracle(wl)]
+
+
+def _go_val(a):
+    return Fraction(a[0], 10 ** a[1])
+
+
+def ideal_diff(go, iv):
+    """first figure on which Go's presentation differs from the extracted ideal (value or number of decimals)."""
+    gok = bool(go) and go[0] == b"ok"
+    iok = bool(iv) and iv[0] == b"ok"
+    if gok != iok:
+        return "outcome"
+    if not gok:
+        return None
+    gt, it = go[1], iv[1]
+    if len(gt[0]) != len(it[0]):
+        return "lines"
+    for gl, il in zip(gt[0], it[0]):
+        for j, nm in enumerate(("line price", "line sum", "line total")):
+            if not (len(gl[j]) == 2 and len(il[j]) == 3 and _go_val(gl[j]) == Fraction(il[j][0], il[j][1]) and gl[j][1] == il[j][2]):
+                return nm
+    for i, nm in enumerate(TOTALS, start=1):
+        a, b = gt[i], it[i]
+        if not a and not b:
+            continue
+        if not (len(a) == 2 and len(b) == 3 and _go_val(a) == Fraction(b[0], b[1]) and a[1] == b[2]):
+            return nm
+    return None
+
+
+def far_total(go, ev):
+    """first presented total of Go that is a full minor unit or more from the extracted exact value (or whose
+    presence differs), with both values; None when every total is strictly closer."""
+    if not ev or ev[0] != b"ok":
+        return ("outcome", None, None)
+    gt, et = go[1], ev[1]
+    unit = Fraction(1, 10 ** gt[1][1])
+    for nm in BOUND_TOTALS:
+        i = TOTALS.index(nm) + 1
+        a, b = gt[i], et[i]
+        if not a and not b:
+            continue
+        if not a or not b:
+            return (nm, a, b)
+        if abs(_go_val(a) - Fraction(b[0], b[1])) >= unit:
+            return (nm, a, b)
+    return None
+
+
+def judge_spec(c, res, stream):
+    """(a) Go == ideal on every figure; (b) the 'precise' bound on Go's totals inside the theorem's domain;
+    (c) the two known price-rounding findings outside it."""
+    rs = [r for r in res if r["in_domain"]]
+    if not rs:
+        return
+    docs = [r["doc"] for r in rs]
+    ideal = _oracle_op("ideal", docs)
+    cls = _oracle_op("class", docs)
+    reported = c.cov.setdefault("_spec_reported", {"a": 0, "b": 0})
+    need = []
+    for r, iv, cv in zip(rs, ideal, cls):
+        key = (stream, json.dumps(r["doc"], sort_keys=True))
+        c.count("corr:C01:go-vs-ideal", 1, key)
+        fd = ideal_diff(r["go"], iv)
+        if fd is not None:
+            c.count("go-vs-ideal-differences", 1)
+            if first_diff(r["go"], r["model"]) is None and reported["a"] < 3:
+                # Go and the model agree, the specification does not: theorem and model diverge
+                reported["a"] += 1
+                c.report("correspondence broken: the extracted declarative specification (Calc/Ideal.v `ideal`) differs from the implementation and the model on `%s`, contradicting theorem calc_refines_ideal" % fd,
+                         {"correspondence": "corr:C01:go-vs-ideal", "theorem": "rocq/Props/C01.v calc_refines_ideal", "document": r["doc"],
+                          "implementation": r["go_raw"], "ideal": w(iv)}, no_input=True)
+        # (b) and (c) are judged on Go's output whether or not it agrees with the specification
+        if not (r["go"] and r["go"][0] == b"ok") or not cv or not isinstance(cv[0], list) or len(cv[0]) != 6:
+            continue
+        simple, budget, conv, brk, precise, sbp = cv[0]
+        if not precise:
+            continue
+        if simple and budget < 100:
+            need.append((r, "domain", budget))
+        elif (not simple) and sbp and (conv or brk) and budget < 100:
+            need.append((r, F_CONV if conv else F_BREAK, budget))
+    if not need:
+        return
+    exact = _oracle_op("exact", [r["doc"] for r, _, _ in need])
+    for (r, kind, budget), ev in zip(need, exact):
+        far = far_total(r["go"], ev)
+        key = (stream, json.dumps(r["doc"], sort_keys=True))
+        if kind == "domain":
+            c.count("precise-bound-in-domain", 1, key)
+            if far is not None and reported["b"] < 3:
+                reported["b"] += 1
+                c.report("C01: under 'precise' the presented `%s` of an ordinary-sized document (simple_docb, budget %d < 100) is a full minor unit or more from the unrounded exact value (presented %s, exact %s)"
+                         % (far[0], budget, w(far[1]) if far[1] is not None else "-", w(far[2]) if far[2] is not None else "-"),
+                         {"document": r["doc"], "implementation": r["go_raw"], "exact": w(ev), "clause": BOUND_CLAUSE, "figure": far[0],
+                          "theorem": "rocq/Props/C01.v precise_error_bound_decidable"})
+        else:
+            c.count("price-rounding-outside-domain", 1, key)
+            if far is not None:
+                c.count("price-rounding-outside-domain-far", 1)
+                c.report("under 'precise' the presented `%s` is a full minor unit or more from the exact value (presented %s, exact %s/%s) in a document outside the bound's class only by %s"
+                         % (far[0], fmt_amt(far[1]), far[2][0] if far[2] else "-", far[2][1] if far[2] else "-",
+                            "an exchange-rate conversion" if kind == F_CONV else "a sub-line breakdown"),
+                         {"document": r["doc"], "implementation": r["go_raw"], "exact": w(ev), "clause": BOUND_CLAUSE}, finding_id=kind)
+
+
+def fmt_amt(a):
+    if not a:
+        return "-"
+    return cg.fmt(cg.A(a[0], a[1]))
+
+
 def run(c):
     quick = c.tier == "quick"
     if not std_builds(c):
@@ -91,9 +302,12 @@ def run(c):
     g = cg.Gen(c.rng)
     n = 5000 if quick else 250000
     streams = {
+        "corpus": witness_docs(),
         "mixed": [g.doc() for _ in range(n)],
         "many-lines": [g.doc(big=True) for _ in range(n // 25)],
         "refused": error_docs(c, g, n // 25),
+        "bound-domain": simple_docs(c, g, n // 5),
+        "price-rounding": price_rounding_docs(c, g, n // 25),
     }
     ties = 0
     mism = 0
@@ -101,6 +315,7 @@ def run(c):
         for i in range(0, len(docs), 20000):
             res = cg.run3(docs[i:i + 20000])
             mism += judge(c, res, name)
+            judge_spec(c, res, name)
             for r in res[:2]:
                 c.sample({"stream": name, "document": r["doc"], "implementation": r["go_raw"][:300]}, limit=4)
             c.cov.setdefault("outcomes", {})
@@ -112,6 +327,13 @@ def run(c):
                      "foreign-currency items by exchange rate or alternative price, advances and due dates, tax-included prices, both rules and regime defaults "
                      "(ES, EL, PT), currencies with 0/2/3 decimals; distinct = distinct documents; non-trivial = inside the 2^52 magnitude domain of C05 "
                      "(others informational); compared: every line figure, every total, every tax group")
+    c.cov.pop("_spec_reported", None)
+    c.cov["go_ideal_differences"] = c.cov.get("streams", {}).get("go-vs-ideal-differences", {}).get("evaluations", 0)
+    c.cov["rule_spec"] = ("corr:C01:go-vs-ideal: every in-domain document of every stream, Go's presented line price / sum / total and ten totals "
+                          "against the extracted `ideal` (Calc/Ideal.v), value and number of decimals; precise-bound-in-domain: documents with "
+                          "extracted simple_docb = true and budget < 100 under 'precise', every presented total of Go strictly within one minor unit "
+                          "of the extracted `exact`; price-rounding-outside-domain: documents outside the class only by a conversion or breakdown "
+                          "(known findings when a full unit away); streams bound-domain / price-rounding are built for these two oracles")
     c.cov["go_model_differences"] = mism
     if not proved:
         pr = c.proof
